@@ -150,16 +150,29 @@ def build_source(case):
     is_async = wrapper in ("coro", "agen")
     body = []
     body.append(rec)
+    pre = ""
     if gen is not None:
-        # Mealy machine: state = last value received; step k yields script[k] (constant or echo of the last sent value)
-        body.append("__x = None")
-        for st in gen["steps"]:
-            e = lit(st["v"]) if "v" in st else f"__echo__(__x, {lit(st['echo'])})"
-            body.append(f"__x = yield {e}")
-            body.append("__sent__(__x)")
-        if wrapper == "gen":
-            if "ret" in gen:
-                body.append(f"return {lit(gen['ret']['v'])}" if "v" in gen["ret"] else f"return __echo__(__x, {lit(gen['ret']['echo'])})")
+        # Mealy machine: state = last value received; a yield is a constant or an echo of the last sent value.  `chain`:
+        # further (undecorated) generators; each generator but the last ends by yielding the next one (tail delegation)
+        segs = [gen["steps"]] + list(gen.get("chain") or [])
+
+        def seg_body(j):
+            out = ["__x = None"]
+            for st in segs[j]:
+                e = lit(st["v"]) if "v" in st else f"__echo__(__x, {lit(st['echo'])})"
+                out.append(f"__x = yield {e}")
+                out.append("__sent__(__x)")
+            if j + 1 < len(segs):
+                out.append(f"yield __seg{j + 1}()")
+            else:
+                if not segs[j]:
+                    out.append("if False: yield")   # a generator function needs a yield somewhere
+                if wrapper == "gen" and "ret" in gen:
+                    out.append(f"return {lit(gen['ret']['v'])}" if "v" in gen["ret"] else f"return __echo__(__x, {lit(gen['ret']['echo'])})")
+            return out
+        body += seg_body(0)
+        for j in range(len(segs) - 1, 0, -1):
+            pre += ("async def" if is_async else "def") + f" __seg{j}():\n" + "".join("    " + b + "\n" for b in seg_body(j))
     else:
         if wrapper in ("gen", "agen"):
             body.append("yield 0")
@@ -167,7 +180,7 @@ def build_source(case):
             body.append(f"return {lit(case['retval']['v'])}" if case.get("retval") else "return None")
     d = ("async def" if is_async else "def") + f" f({sig}){ann}:\n" + "".join("    " + b + "\n" for b in body)
     if ctx in ("func",):
-        return dec + "\n" + d
+        return pre + dec + "\n" + d
     ind = lambda s: "".join("    " + l + "\n" for l in s.splitlines())
     if ctx == "klass":
         # the whole class is decorated: apply_class patches every public method
@@ -327,6 +340,61 @@ def impl(case):
     except BaseException as e:
         out["err"] = _exc_name(e)
         out["err_cls"] = type(e).__name__
+    if gen is not None and "decl_err" not in out:
+        # the undecorated function driven the same way: sends converted by the oracle, hand-overs followed
+        # (a yielded generator takes over and is started with next()); raw yields / return recorded
+        import inspect
+        strict_for(case)
+        yt, st, rt = effective_types(gen, wrapper)
+        raw = utype.raw(ns["f"])
+        rt_ = []
+
+        def conv_send(s_):
+            if s_ is None:
+                return True, None
+            return conv(st, s_)
+
+        if wrapper == "gen":
+            def run_raw():
+                g = raw()
+                x = None
+                ins = [None] + sends
+                i = 0
+                while i < len(ins):
+                    ok, x = conv_send(ins[i])
+                    if not ok:
+                        rt_.append(["e", "ParseError"]); return
+                    try:
+                        item = g.send(x) if x is not None else next(g)
+                    except StopIteration as e:
+                        rt_.append(["r", enc(e.value)]); return
+                    while inspect.isgenerator(item):
+                        g = item
+                        try:
+                            item = next(g)
+                        except StopIteration as e:
+                            rt_.append(["r", enc(e.value)]); return
+                    rt_.append(["y", enc(item)])
+                    i += 1
+            run_raw()
+        else:
+            async def run_raw():
+                g = raw()
+                ins = [None] + sends
+                for s_ in ins:
+                    ok, x = conv_send(s_)
+                    if not ok:
+                        rt_.append(["e", "ParseError"]); return
+                    try:
+                        item = await (g.asend(x) if x is not None else g.__anext__())
+                        while inspect.isasyncgen(item):
+                            g = item
+                            item = await g.__anext__()
+                    except StopAsyncIteration:
+                        rt_.append(["r", enc(None)]); return
+                    rt_.append(["y", enc(item)])
+            asyncio.run(run_raw())
+        out["raw_trace"] = rt_
     out["body"] = log["body"]
     out["binding"] = log["binding"]
     out["sent"] = log["sent"]
@@ -484,6 +552,28 @@ def expected(case):
     return ("ok", out)
 
 
+def converted_raw_trace(case, raw_trace):
+    """the recorded trace of the undecorated function (run in the worker) with yields / return converted"""
+    if raw_trace is None:
+        return None
+    strict_for(case)
+    yt, st, rt = effective_types(case["gen"], case["wrapper"])
+    out = []
+    for kind, v in raw_trace:
+        if kind == "e":
+            out.append([kind, v]); break
+        val = dec(v)
+        if kind == "r" and val is None:
+            out.append(["r", enc(None)]); break
+        ok, c = conv(yt if kind == "y" else rt, val)
+        if not ok:
+            out.append(["e", "ParseError"]); break
+        out.append([kind, enc(c)])
+        if kind == "r":
+            break
+    return out
+
+
 def gen_expected_trace(case):
     """trace of the undecorated generator on the converted sends, with yields/return converted (pure Python)"""
     strict_for(case)
@@ -496,18 +586,11 @@ def gen_expected_trace(case):
         st = rt = None
     if annot == "none":
         yt = st = rt = None
-    steps = g["steps"]
+    segs = [g["steps"]] + list(g.get("chain") or [])
     sends = [None if s is None else dec(s) for s in g.get("sends", [])]
     trace = []
-    x = None
-    k = 0
 
-    def emit(stp):
-        v = stp["v"] if "v" in stp else (stp["echo"] if x is None else x)
-        ok, c = conv(yt, v)
-        return ("y", c) if ok else ("e", "ParseError")
-
-    def finish():
+    def finish(x):
         if wrapper == "gen" and "ret" in g:
             r = g["ret"]
             v = r["v"] if "v" in r else (r["echo"] if x is None else x)
@@ -517,27 +600,35 @@ def gen_expected_trace(case):
             return ("r", c) if ok else ("e", "ParseError")
         return ("r", None)
 
-    # first next()
-    if k >= len(steps):
-        return [finish()]
-    t = emit(steps[k]); trace.append(t)
-    if t[0] == "e":
+    def resume(j, k, x):
+        """the generators followed through their hand-overs: (event, j', k')"""
+        while True:
+            if k < len(segs[j]):
+                stp = segs[j][k]
+                v = stp["v"] if "v" in stp else (stp["echo"] if x is None else x)
+                ok, c = conv(yt, v)
+                return (("y", c) if ok else ("e", "ParseError")), j, k + 1
+            if j + 1 < len(segs):
+                j, k, x = j + 1, 0, None          # the yielded generator takes over and is started with next()
+                continue
+            return finish(x), j, k
+
+    j = k = 0
+    t, j, k = resume(j, k, None)
+    trace.append(t)
+    if t[0] != "y":
         return trace
-    for s in sends:
-        if s is not None:
-            ok, c = conv(st, s)
+    for s_ in sends:
+        x = None
+        if s_ is not None:
+            ok, c = conv(st, s_)
             if not ok:
                 trace.append(("e", "ParseError"))
                 return trace
             x = c
-        else:
-            x = None
-        k += 1
-        if k >= len(steps):
-            trace.append(finish())
-            return trace
-        t = emit(steps[k]); trace.append(t)
-        if t[0] == "e":
+        t, j, k = resume(j, k, x)
+        trace.append(t)
+        if t[0] != "y":
             return trace
     return trace
 
@@ -864,6 +955,17 @@ def gen_generator_case(rng):
         else:
             steps.append({"echo": rng.choice([v for v in GEN_POOL[yt] if conv(yt, v)[0]])})
     g["steps"] = steps
+    if rng.random() < 0.35:
+        # tail delegation: after its yields the generator hands over to another one (possibly at once, possibly twice)
+        chain = []
+        for _ in range(rng.choice([1, 1, 2])):
+            chain.append([({"v": gen_gv(rng, yt)} if rng.random() < 0.4 else
+                           {"echo": rng.choice([v for v in GEN_POOL[yt] if conv(yt, v)[0]])})
+                          for _ in range(rng.randint(0, 2))])
+        g["chain"] = chain
+        if rng.random() < 0.3:
+            g["steps"] = steps[:rng.randint(0, 1)]
+        nsteps = len(g["steps"]) + sum(len(c) for c in chain)
     if wrapper == "gen" and rng.random() < 0.7:
         g["ret"] = rng.choice([{"v": gen_gv(rng, rt)}, {"v": gen_gv(rng, rt)},
                                {"echo": rng.choice([v for v in GEN_POOL[rt] if conv(rt, v)[0]])}]
@@ -929,13 +1031,21 @@ def exhaustive_gen_cases(maxlen=3):
                 for eager in (False, True):
                     for n in range(0, maxlen + 1):
                         for seq in itertools.product(alphabet, repeat=n):
-                            g = {"annot": "generator", "yt": yt, "st": st, "rt": st,
-                                 "steps": [{"v": 7 if st != "str" else "s"}] + [{"echo": 9 if st != "str" else "e"}] * 3,
-                                 "sends": [None if x is None else enc(x) for x in seq]}
-                            if wrapper == "gen":
-                                g["ret"] = {"echo": 5 if st != "str" else "r"}
-                            out.append({"kind": "gen", "params": [], "ctx": "func", "wrapper": wrapper, "eager": eager,
-                                        "options": {}, "args": [], "kwargs": [], "gen": g})
+                            c0 = {"v": 7 if st != "str" else "s"}
+                            ec = {"echo": 9 if st != "str" else "e"}
+                            # one generator; a hand-over after the 1st / 2nd yield; two hand-overs in a row; at once
+                            for steps, chain in (([c0, ec, ec, ec], None), ([c0], [[ec, ec, ec]]), ([c0, ec], [[ec, ec]]),
+                                                 ([c0], [[], [ec, ec]]), ([], [[c0, ec, ec]])):
+                                if chain is not None and yt is None and st is not None:
+                                    continue          # (keeps the enumeration small: one yield typing per send type)
+                                g = {"annot": "generator", "yt": yt, "st": st, "rt": st, "steps": steps,
+                                     "sends": [None if x is None else enc(x) for x in seq]}
+                                if chain is not None:
+                                    g["chain"] = chain
+                                if wrapper == "gen":
+                                    g["ret"] = {"echo": 5 if st != "str" else "r"}
+                                out.append({"kind": "gen", "params": [], "ctx": "func", "wrapper": wrapper, "eager": eager,
+                                            "options": {}, "args": [], "kwargs": [], "gen": g})
     return out
 
 
@@ -1086,7 +1196,7 @@ def model_binding_by_name(case, b):
 def is_nontrivial(case, ex):
     if case["kind"] == "gen":
         g = case["gen"]
-        return bool(g["steps"]) and (any(x is not None for x in g["sends"]) or any(g.get(k) for k in ("yt", "st", "rt")))
+        return bool(g["steps"] or g.get("chain")) and (any(x is not None for x in g["sends"]) or any(g.get(k) for k in ("yt", "st", "rt")))
     return ex[0] in ("ok", "fail") and len(case["params"]) >= 1 and (len(case["args"]) + len(case["kwargs"]) >= 1
                                                                        or any(p.get("default") for p in case["params"]))
 
@@ -1194,6 +1304,7 @@ class C08(Check):
     def model_line(self, case):
         if case["kind"] == "gen":
             return {"kind": "gen", "wrapper": case["wrapper"], "gen": case["gen"], "legacy": bool(case.get("legacy")),
+                    "no_reset": bool(case.get("no_reset")),
                     "eager": bool(case.get("eager"))}
         ctx = case.get("ctx", "func")
         bound = FIRST[ctx] is not None
@@ -1284,6 +1395,9 @@ class C08(Check):
             want = [[a, enc(b) if a != "e" else b] for a, b in gen_expected_trace(case)]
             if io.get("trace") != want:
                 return f"generator trace {io.get('trace')} but the undecorated generator with converted values gives {want}"
+            viaraw = converted_raw_trace(case, io.get("raw_trace"))
+            if viaraw is not None and viaraw != want:
+                return f"HARNESS: the undecorated function actually run gives {viaraw}, the script oracle {want}"
             return None
         return spec_bind(case, io)
 
